@@ -87,3 +87,32 @@ Theorem C09_validation_stage_never_panics : forall cfg now,
                (exists v, G_Values_GetAll m now k = PVal v)).
 Proof. exact validation_stage_never_panics. Qed.
 Print Assumptions C09_validation_stage_never_panics.
+
+(* The decryption glue of package types as TRANSLATED from /repo's source text on this run (GenDecrypt.v: every slice
+   expression, index, %, nil dereference, CryptBlocks / NewCBCDecrypter precondition is an explicit panic branch) has, for
+   every input and every behaviour of the crypto primitives, the same outcome (value bytes / error / panic) as the
+   hand-written model the theorems above are about; hence the SOURCE never panics on a non-nil certificate. *)
+From V Require Import GenPreludeD GenDecrypt P_GenDecrypt.
+Theorem C09_source_DecryptBytes_is_the_model :
+  forall rsa_oaep rsa_pkcs1 gcm_open cbc_decrypt sha1_hex (ea : enc_assertion) (cert : option sp_cert),
+    erase_pm (G_EncryptedAssertion_DecryptBytes rsa_oaep rsa_pkcs1 gcm_open cbc_decrypt ea cert)
+    = erase_out (decrypt_bytes rsa_oaep rsa_pkcs1 gcm_open cbc_decrypt sha1_hex cert ea).
+Proof. exact G_DecryptBytes_is_model. Qed.
+Print Assumptions C09_source_DecryptBytes_is_the_model.
+
+Theorem C09_source_DecryptSymmetricKey_is_the_model :
+  forall rsa_oaep rsa_pkcs1 sha1_hex (ek : enc_key) (cert : option sp_cert),
+    erase_pm (G_EncryptedKey_DecryptSymmetricKey rsa_oaep rsa_pkcs1 ek cert)
+    = erase_out (decrypt_symmetric_key rsa_oaep rsa_pkcs1 sha1_hex cert ek).
+Proof. exact G_DecryptSymmetricKey_is_model. Qed.
+Print Assumptions C09_source_DecryptSymmetricKey_is_the_model.
+
+Theorem C09_source_decryption_never_panics :
+  forall rsa_oaep rsa_pkcs1 gcm_open cbc_decrypt (cert : sp_cert),
+    (forall ea, exists r, G_EncryptedAssertion_DecryptBytes rsa_oaep rsa_pkcs1 gcm_open cbc_decrypt ea (Some cert) = PVal r) /\
+    (forall ek, exists r, G_EncryptedKey_DecryptSymmetricKey rsa_oaep rsa_pkcs1 ek (Some cert) = PVal r).
+Proof.
+  exact (fun o p g c cert => conj (fun ea => G_DecryptBytes_never_panics o p g c (fun _ => EmptyString) ea cert)
+                                  (fun ek => G_DecryptSymmetricKey_never_panics o p (fun _ => EmptyString) ek cert)).
+Qed.
+Print Assumptions C09_source_decryption_never_panics.
